@@ -13,6 +13,8 @@ repository under test with `ast`, rendered as Coq terms over Flocq's binary64 ro
   Track.tick:     if/while <due test>         -> src_track_due      t x     : bool   (t = self.current_time, x = self.next_event_time)
   Track.process_note_offs:  if <due test>     -> src_noteoff_due    ts t    : bool   (ts = note_off.timestamp)
   Timeline.tick:  if <due test> (actions)     -> src_action_due     a t     : bool   (a = action.time)
+  Track.perform_event: NoteOffEvent(<time>, ...) -> src_noteoff_timestamp t d g : R     (t = self.current_time, d = event.duration, g = gate)
+  Timeline._schedule_action (BODY up to Action(<time>, function)) -> src_action_time t q dl : R   (q = quantize, dl = delay)
 
 Semantics used by the translation (CPython on IEEE-754 binary64, round-to-nearest-even):
   * a float literal / int->float conversion of the small integers involved is exact;
@@ -23,6 +25,9 @@ Semantics used by the translation (CPython on IEEE-754 binary64, round-to-neares
     the literal 1e-6 is the double nearest to 10^-6: RN (1 / 10 ^ 6); `a != b` on ints: negb (a =? b); `x > y` on floats:
     Rlt_bool y x; `or`: orb (no side effects); `x is None` on the grid's resolution: match on option Z; `if` forks the
     symbolic execution (the rest of the body is translated under each branch), so no value of mixed type is ever merged;
+  * in _schedule_action: `if quantize:` on a float tests quantize <> 0: negb (Req_bool q 0); `float(x)` of a float is x;
+    `math.ceil(x)` of a float is the exact ceiling, an int: Zceil x; `x += e` is `x = x + e`; quantize, delay (annotated float),
+    event.duration and gate hold floats (an int there converts exactly);
   * `round(x, 8)` of a float is correctly rounded to 8 decimals: py_round8 x (Base/FloatRound8.v);
   * `a >= b` / `a <= b` between floats, or a float and the int literal 0, compares the exact values: Rle_bool b a / Rle_bool a b
     (-0.0 >= 0 is True in Python, as in the reals); the time attributes named above hold floats;
@@ -364,6 +369,146 @@ def grid_step_call(module, cls):
     return True
 
 
+
+# ---------------------------------------------------------------------------------------------------------------------
+# timestamps: the note-off time of Track.perform_event and the action time of Timeline._schedule_action
+
+def ex_stamp(n, env):
+    """expressions of the two timestamp computations: `ex` plus self.current_time, float(), math.ceil(), round(., 8)"""
+    if is_self_attr(n, "current_time"):
+        return ("float", "t")
+    if isinstance(n, ast.Attribute):
+        for pred, var in env.get("__leaves__", ()):
+            if pred(n):
+                return ("float", var)
+        raise Reject("attribute not understood: " + ast.unparse(n))
+    if isinstance(n, ast.Name):
+        if n.id not in env:
+            raise Reject("unknown name " + n.id)
+        return env[n.id]
+    if isinstance(n, ast.Call) and not n.keywords:
+        f = n.func
+        if isinstance(f, ast.Name) and f.id == "float" and len(n.args) == 1:
+            a = ex_stamp(n.args[0], env)
+            if a[0] != "float":
+                raise Reject("float() of a non-float")
+            return a
+        if (isinstance(f, ast.Attribute) and isinstance(f.value, ast.Name) and f.value.id == "math" and f.attr == "ceil"
+                and len(n.args) == 1):
+            a = ex_stamp(n.args[0], env)
+            if a[0] != "float":
+                raise Reject("math.ceil of a non-float")
+            return ("int", "(Zceil %s)" % a[1])
+        if (isinstance(f, ast.Name) and f.id == "round" and len(n.args) == 2 and isinstance(n.args[1], ast.Constant)
+                and type(n.args[1].value) is int and n.args[1].value == 8):
+            a = ex_stamp(n.args[0], env)
+            if a[0] != "float":
+                raise Reject("round(., 8) of a non-float")
+            return ("float", "(py_round8 %s)" % a[1])
+        raise Reject("call not understood: " + ast.unparse(n))
+    if isinstance(n, ast.BinOp) and type(n.op) in (ast.Add, ast.Sub, ast.Mult, ast.Div):
+        a, b = ex_stamp(n.left, env), ex_stamp(n.right, env)
+        op = {ast.Add: "+", ast.Sub: "-", ast.Mult: "*", ast.Div: "/"}[type(n.op)]
+        if a[0] == "int" and b[0] == "int":
+            raise Reject("exact integer arithmetic is not expected here: " + ast.unparse(n))
+        return ("float", "(RN (%s %s %s))" % (as_R(a, ast.unparse(n)), op, as_R(b, ast.unparse(n))))
+    raise Reject("expression not understood: " + ast.unparse(n))
+
+
+def action_time_term(fn):
+    """Timeline._schedule_action(self, function, quantize: float, delay: float): the statements up to
+    `action = Action(<time>, function)`; the rest must be `self.actions.append(action)`"""
+    a = fn.args
+    names = [x.arg for x in a.args]
+    if names != ["self", "function", "quantize", "delay"] or a.posonlyargs or a.kwonlyargs or a.vararg or a.kwarg:
+        raise Reject("_schedule_action: unexpected signature")
+    for x in a.args[2:]:
+        if not (isinstance(x.annotation, ast.Name) and x.annotation.id == "float"):
+            raise Reject("_schedule_action: %s is not annotated float" % x.arg)
+    calls = [m for m in ast.walk(fn) if isinstance(m, ast.Call) and isinstance(m.func, ast.Name) and m.func.id == "Action"]
+    if len(calls) != 1:
+        raise Reject("_schedule_action: %d calls of Action" % len(calls))
+
+    def go(stmts, env, depth):
+        if depth > 6 or not stmts:
+            raise Reject("_schedule_action: Action(...) is not reached on every path")
+        st, rest = stmts[0], stmts[1:]
+        if isinstance(st, ast.Expr) and isinstance(st.value, ast.Constant) and isinstance(st.value.value, str):
+            return go(rest, env, depth)
+        if isinstance(st, ast.Assign) and len(st.targets) == 1 and isinstance(st.targets[0], ast.Name):
+            if st.value is calls[0]:
+                c = calls[0]
+                if not (len(c.args) == 2 and not c.keywords and isinstance(c.args[1], ast.Name) and c.args[1].id == "function"):
+                    raise Reject("unexpected arguments of Action")
+                v = ex_stamp(c.args[0], env)
+                if v[0] != "float":
+                    raise Reject("the action time is not a float")
+                tail = [ast.unparse(x) for x in rest]
+                if tail != ["self.actions.append(%s)" % st.targets[0].id]:
+                    raise Reject("_schedule_action: unexpected statements after Action(...): %r" % tail)
+                return v[1]
+            e2 = dict(env)
+            e2[st.targets[0].id] = ex_stamp(st.value, env)
+            return go(rest, e2, depth)
+        if isinstance(st, ast.AugAssign) and isinstance(st.target, ast.Name) and type(st.op) is ast.Add:
+            e2 = dict(env)
+            e2[st.target.id] = ex_stamp(ast.BinOp(left=ast.Name(id=st.target.id, ctx=ast.Load()), op=ast.Add(), right=st.value), env)
+            return go(rest, e2, depth)
+        if isinstance(st, ast.If) and isinstance(st.test, ast.Name) and env.get(st.test.id, ("",))[0] == "float":
+            c = "(negb (Req_bool %s 0))" % env[st.test.id][1]
+            return "(if %s then %s else %s)" % (c, go(st.body + rest, env, depth + 1), go(st.orelse + rest, env, depth + 1))
+        raise Reject("_schedule_action: statement not understood: " + ast.unparse(st).splitlines()[0])
+
+    return go(fn.body, {"quantize": ("float", "q"), "delay": ("float", "dl")}, 0)
+
+
+def noteoff_timestamp_term(fn):
+    """Track.perform_event: the first argument of the single call NoteOffEvent(...), with the local names it uses
+    resolved through their (unique) assignments in the function; leaves: self.current_time, event.duration, gate"""
+    calls = [m for m in ast.walk(fn) if isinstance(m, ast.Call) and isinstance(m.func, ast.Name) and m.func.id == "NoteOffEvent"]
+    if len(calls) != 1 or not calls[0].args:
+        raise Reject("perform_event: %d calls of NoteOffEvent" % len(calls))
+    assigns = {}
+    for st in ast.walk(fn):
+        for tg in targets_of(st):
+            for nm in ([tg] if isinstance(tg, ast.Name) else [x for x in ast.walk(tg) if isinstance(x, ast.Name)]):
+                assigns.setdefault(nm.id, []).append(st)
+    for st in ast.walk(fn):                      # loop variables and the like also bind names
+        if isinstance(st, (ast.For, ast.comprehension)):
+            for x in ast.walk(st.target):
+                if isinstance(x, ast.Name):
+                    assigns.setdefault(x.id, []).append(st)
+
+    def is_gate_source(v):
+        """event.gate[index] if isinstance(event.gate, tuple) else event.gate"""
+        return (isinstance(v, ast.IfExp) and ast.unparse(v.test) == "isinstance(event.gate, tuple)"
+                and ast.unparse(v.body) == "event.gate[index]" and ast.unparse(v.orelse) == "event.gate")
+
+    def resolve(n, depth=0):
+        if depth > 6:
+            raise Reject("perform_event: names nested too deeply")
+        if isinstance(n, ast.Name):
+            sts = assigns.get(n.id, [])
+            if len(sts) != 1 or not isinstance(sts[0], ast.Assign) or len(sts[0].targets) != 1 or not isinstance(sts[0].targets[0], ast.Name):
+                raise Reject("perform_event: %s is not assigned exactly once by a plain assignment" % n.id)
+            if n.id == "gate":
+                if not is_gate_source(sts[0].value):
+                    raise Reject("perform_event: unexpected source of gate: " + ast.unparse(sts[0].value))
+                return ("float", "g")
+            return resolve(sts[0].value, depth + 1)
+        if isinstance(n, ast.BinOp) and type(n.op) in (ast.Add, ast.Sub, ast.Mult, ast.Div):
+            a, b = resolve(n.left, depth + 1), resolve(n.right, depth + 1)
+            op = {ast.Add: "+", ast.Sub: "-", ast.Mult: "*", ast.Div: "/"}[type(n.op)]
+            return ("float", "(RN (%s %s %s))" % (a[1], op, b[1]))
+        if is_self_attr(n, "current_time"):
+            return ("float", "t")
+        if is_name_attr(n, "event", "duration"):
+            return ("float", "d")
+        raise Reject("perform_event: expression not understood: " + ast.unparse(n))
+
+    return resolve(calls[0].args[0])[1]
+
+
 def main(out_path):
     repo = os.environ.get("PYTHONPATH", "/repo").split(":")[0]
     tl = ast.parse(open(os.path.join(repo, "isobar", "timelines", "timeline.py")).read())
@@ -405,6 +550,8 @@ def main(out_path):
     track_due = due_test(find_def(Track, "tick"), is_next, [(is_next, "x")], ["If", "While"])
     noteoff_due = due_test(find_def(Track, "process_note_offs"), is_ts, [(is_ts, "ts")], ["If"])
     action_due = due_test(find_def(Timeline, "tick"), is_at, [(is_at, "a")], ["If"])
+    noteoff_ts = noteoff_timestamp_term(find_def(Track, "perform_event"))
+    action_tm = action_time_term(find_def(Timeline, "_schedule_action"))
     text = ("(* GENERATED by harness/gen_tables_time.py from the source text of isobar/timelines/{timeline,track}.py.  Do not edit. *)\n"
             "From Coq Require Import ZArith Reals.\n"
             "From Flocq Require Import Core.\n"
@@ -415,7 +562,9 @@ def main(out_path):
             "Definition src_track_due (t x : R) : bool := %s.\n"
             "Definition src_noteoff_due (ts t : R) : bool := %s.\n"
             "Definition src_action_due (a t : R) : bool := %s.\n"
-            % (dur, steps, track_due, noteoff_due, action_due))
+            "Definition src_noteoff_timestamp (t d g : R) : R := %s.\n"
+            "Definition src_action_time (t q dl : R) : R :=\n  %s.\n"
+            % (dur, steps, track_due, noteoff_due, action_due, noteoff_ts, action_tm))
     old = open(out_path).read() if os.path.exists(out_path) else None
     if old != text:
         tmp = out_path + ".tmp%d" % os.getpid()
